@@ -566,6 +566,10 @@ func checkC10(c *core.Ctx) {
 	c.Trust("encoding/json escaping rules; Postgres encode(…, 'escape') / ::bytea round trip")
 	ruleHashAgreement(c)
 	ruleMemento(c)
+	// the two sides agree only if SQL chains on the log Go chains on (the latest log of the
+	// ledger), and that log is the same for both only while writers are serialised until commit
+	rulePredecessor(c)
+	ruleLogInsertLock(c)
 }
 
 // ================= C34 =================
